@@ -748,3 +748,160 @@ func VerifC08Equality(h *verifrt.H) {
 	h.Assert(scan == index, "scan-route-and-index-route-agree-on-equality")
 	h.Cover("end")
 }
+
+// ---------- C05: wire conversion around a close/reload ----------
+
+// VerifC05Wire: a Set value of every wire type (symbolic value, zero-like values included,
+// within the range of its type) goes through the gateway's keyValuesToTreasure, the storage
+// form (ConvertToByte / LoadFromByte into a fresh record, as close and re-summon do) and back
+// through treasureToKeyValuePair: the response carries the same type and the same value as the
+// response before the close, and as the request.
+func VerifC05Wire(h *verifrt.H) {
+	kv := &hydrapb.KeyValuePair{Key: "k"}
+	kind := h.Choose("wireType", 15)
+	switch kind {
+	case 0:
+		v := int32(h.Int8("value"))
+		kv.Int8Val = &v
+	case 1:
+		v := int32(h.Int16("value"))
+		kv.Int16Val = &v
+	case 2:
+		v := h.Int32("value")
+		kv.Int32Val = &v
+	case 3:
+		v := h.Int64("value")
+		kv.Int64Val = &v
+	case 4:
+		v := uint32(h.Uint8("value"))
+		kv.Uint8Val = &v
+	case 5:
+		v := uint32(h.Uint16("value"))
+		kv.Uint16Val = &v
+	case 6:
+		v := h.Uint32("value")
+		kv.Uint32Val = &v
+	case 7:
+		v := h.Uint64("value")
+		kv.Uint64Val = &v
+	case 8:
+		v := h.Float32("value")
+		h.Assume(v == v)
+		kv.Float32Val = &v
+	case 9:
+		v := h.Float64("value")
+		h.Assume(v == v)
+		kv.Float64Val = &v
+	case 10:
+		v := h.String("value", h.Len("valueLen", 0, 2))
+		kv.StringVal = &v
+	case 11:
+		if h.Bool("value") {
+			kv.BoolVal = hydrapb.Boolean_TRUE.Enum()
+		} else {
+			kv.BoolVal = hydrapb.Boolean_FALSE.Enum()
+		}
+	case 12:
+		kv.BytesVal = h.Bytes("value", h.Len("valueLen", 0, 2))
+	case 13:
+		n := h.Len("valueLen", 1, 2)
+		vals := make([]uint32, n)
+		for i := range vals {
+			vals[i] = h.Uint32("elem")
+		}
+		h.Assume(n < 2 || vals[0] != vals[1])
+		kv.Uint32Slice = vals
+	case 14:
+		t := true
+		kv.VoidVal = &t
+	}
+	by := h.String("createdBy", h.Len("byLen", 0, 1))
+	if by != "" {
+		kv.CreatedBy = &by
+	}
+
+	tr := treasure.New(nil)
+	g := tr.StartTreasureGuard(true)
+	tr.BodySetKey(g, "k")
+	keyValuesToTreasure(kv, tr, g)
+	before := &hydrapb.Treasure{}
+	treasureToKeyValuePair(tr, before)
+	blob, err := tr.ConvertToByte(g)
+	h.Assert(err == nil, "encode-ok")
+	tr.ReleaseTreasureGuard(g)
+
+	re := treasure.New(nil)
+	rg := re.StartTreasureGuard(true, guard.BodyAuthID)
+	h.Assert(re.LoadFromByte(rg, blob, "f.hyd") == nil, "decode-ok")
+	re.ReleaseTreasureGuard(rg)
+	after := &hydrapb.Treasure{}
+	treasureToKeyValuePair(re, after)
+
+	same := func(a, b *hydrapb.Treasure) bool {
+		eqI32 := func(x, y *int32) bool { return (x == nil) == (y == nil) && (x == nil || *x == *y) }
+		eqU32 := func(x, y *uint32) bool { return (x == nil) == (y == nil) && (x == nil || *x == *y) }
+		if !eqI32(a.Int8Val, b.Int8Val) || !eqI32(a.Int16Val, b.Int16Val) || !eqI32(a.Int32Val, b.Int32Val) {
+			return false
+		}
+		if !eqU32(a.Uint8Val, b.Uint8Val) || !eqU32(a.Uint16Val, b.Uint16Val) || !eqU32(a.Uint32Val, b.Uint32Val) {
+			return false
+		}
+		if (a.Int64Val == nil) != (b.Int64Val == nil) || a.Int64Val != nil && *a.Int64Val != *b.Int64Val {
+			return false
+		}
+		if (a.Uint64Val == nil) != (b.Uint64Val == nil) || a.Uint64Val != nil && *a.Uint64Val != *b.Uint64Val {
+			return false
+		}
+		if (a.Float32Val == nil) != (b.Float32Val == nil) || a.Float32Val != nil && *a.Float32Val != *b.Float32Val {
+			return false
+		}
+		if (a.Float64Val == nil) != (b.Float64Val == nil) || a.Float64Val != nil && *a.Float64Val != *b.Float64Val {
+			return false
+		}
+		if (a.StringVal == nil) != (b.StringVal == nil) || a.StringVal != nil && *a.StringVal != *b.StringVal {
+			return false
+		}
+		if (a.BoolVal == nil) != (b.BoolVal == nil) || a.BoolVal != nil && *a.BoolVal != *b.BoolVal {
+			return false
+		}
+		if (a.BytesVal == nil) != (b.BytesVal == nil) || len(a.BytesVal) != len(b.BytesVal) {
+			return false
+		}
+		for i := range a.BytesVal {
+			if a.BytesVal[i] != b.BytesVal[i] {
+				return false
+			}
+		}
+		if len(a.Uint32Slice) != len(b.Uint32Slice) {
+			return false
+		}
+		for _, x := range a.Uint32Slice {
+			if !c6has(b.Uint32Slice, x) {
+				return false
+			}
+		}
+		if (a.CreatedBy == nil) != (b.CreatedBy == nil) || a.CreatedBy != nil && *a.CreatedBy != *b.CreatedBy {
+			return false
+		}
+		return a.Key == b.Key && a.IsExist == b.IsExist
+	}
+	h.Assert(same(before, after), "response-after-reload-equals-response-before-close")
+	// and the response before the close carries the request's type and value
+	switch kind {
+	case 0:
+		h.Assert(before.Int8Val != nil && *before.Int8Val == *kv.Int8Val, "response-carries-request-value")
+	case 3:
+		h.Assert(before.Int64Val != nil && *before.Int64Val == *kv.Int64Val, "response-carries-request-value")
+	case 5:
+		h.Assert(before.Uint16Val != nil && *before.Uint16Val == *kv.Uint16Val, "response-carries-request-value")
+	case 9:
+		h.Assert(before.Float64Val != nil && *before.Float64Val == *kv.Float64Val, "response-carries-request-value")
+	case 10:
+		h.Assert(before.StringVal != nil && *before.StringVal == *kv.StringVal, "response-carries-request-value")
+	case 11:
+		h.Assert(before.BoolVal != nil && *before.BoolVal == *kv.BoolVal, "response-carries-request-value")
+	case 12:
+		h.Assert(before.BytesVal != nil && len(before.BytesVal) == len(kv.BytesVal), "response-carries-request-value")
+	}
+	h.Cover("end")
+}
